@@ -155,7 +155,9 @@ Definition pstep_cfg (g : cfg) (p : peer) (e : pevent) : option peer :=
       let s := new_sess id in
       if ok then
         (* changeStatus(ok); sessHub.set; start the read loop *)
-        let s1 := mkSess Ok true true 0 0 0 0 [] [] R0 CIdle id true 0 in
+        (* hooks succeeded; status ok; index insert (Close() on the displaced session is started);
+           the read loop is started by the session's own next step *)
+        let s1 := mkSess (if fix_acc g then Ok else Preparing) true true 0 0 0 0 [] [] RNone CIdle id true 0 in
         Some (hub_set (mkPeer (sessions p ++ [s1]) (pindex p)) n id)
       else
         (* hooks refused: sess.Close() on the preparing session *)
